@@ -305,7 +305,7 @@ func isoRunProgram(c map[string]J, out *strings.Builder) (isoRun, error) {
 	if err := p.Exec(prog); err != nil {
 		return isoRun{}, err
 	}
-	ctx, cancel := context.WithTimeout(context.Background(), 5*time.Second)
+	ctx, cancel := context.WithTimeout(context.Background(), wd(5*time.Second))
 	defer cancel()
 	sols, err := p.QueryContext(ctx, jt.Render(c["query"])+".")
 	if err != nil {
